@@ -24,7 +24,7 @@ except Exception: m={}
 print(' '.join(dict.fromkeys(c for c in re.findall(r'C[0-9][0-9]', m.get('detected_by','')) if c!='$prop')))")
   for c in $prop $others; do
     out=$(PYTHONPATH=$wt/src ./check $c quick 2>&1)
-    if echo "$out" | grep -q "^VIOLATION"; then echo "$name CAUGHT by $c $(echo "$out" | grep -m1 signature | cut -c1-110)"; return; fi
+    if echo "$out" | grep -q "^VIOLATION"; then echo "$name CAUGHT by $c $(echo "$out" | grep -m1 "^  signature" | cut -c1-110)"; return; fi
   done
   echo "$name MISSED (tried $prop $others)"
 }
